@@ -170,6 +170,46 @@ theorem image_has_size (c : List (Local E X)) :
 theorem one_file_per_rank (c : List (Local E X)) : (serializeAll c).length = c.length := by
   simp [serializeAll]
 
+/-! ## reused file prefix
+
+`Files` is what the rank files `fname + r` hold before the call — anything: nothing, images of
+an earlier `serialize` of a larger container, images written on more ranks. -/
+
+/-- serialize overwrites EVERY rank's file, whatever was there before and whether or not the
+rank owns anything: after the call file `r` holds exactly rank `r`'s image, for every rank -/
+theorem serialize_overwrites_every_rank_file (fs : Files E X) (c : List (Local E X)) (r : Nat)
+    (h : r < c.length) : writeAll fs c r = some (serializeRank c.length c[r]) := by
+  simp [writeAll, h]
+
+/-- … so the rank files after the call do not depend on what the prefix held before -/
+theorem serialize_forgets_previous_files (fs fs' : Files E X) (c : List (Local E X)) (r : Nat)
+    (h : r < c.length) : writeAll fs c r = writeAll fs' c r := by
+  simp [writeAll, h]
+
+/-- files of indices beyond the communicator (a prefix first used on more ranks) are left alone;
+no rank of this communicator reads them -/
+theorem serialize_leaves_other_files (fs : Files E X) (c : List (Local E X)) (r : Nat)
+    (h : c.length ≤ r) : writeAll fs c r = fs r := by
+  simp [writeAll, Nat.not_lt.mpr h]
+
+/-- round trip through a reused prefix: every rank finds a file, and what it loads is what it
+would load from a fresh prefix — for every previous content `fs` of the prefix, every container
+(empty ranks, empty container), every target.  With `roundtrip` / `roundtrip_multi` this is the
+container just serialized, never a trace of `fs`. -/
+theorem roundtrip_reused_prefix (d : Disc) (key : E → K) (lt : K → K → Bool) (fs : Files E X)
+    (c tgt : List (Local E X)) (hlen : tgt.length = c.length) :
+    readAll d key lt (writeAll fs c) tgt = (deserializeAll d key lt (serializeAll c) tgt).map some := by
+  apply List.ext_getElem
+  · simp [readAll, deserializeAll, serializeAll, hlen]
+  · intro i h1 h2
+    have hi : i < c.length := by simpa [readAll, hlen] using h1
+    simp [readAll, deserializeAll, serializeAll, writeAll, hi]
+
+/-- a stale image on every index, a shrunken container whose rank 1 owns nothing: rank 1 reloads nothing -/
+example : readAll (E := Nat) (X := Nat) .seq id (fun a b => decide (a < b))
+    (writeAll (fun _ => some ⟨[7, 7, 7], 9, 2⟩) [⟨[1], 0⟩, ⟨[], 0⟩]) [⟨[5], 5⟩, ⟨[5], 5⟩] =
+    [some ⟨[1], 0⟩, some ⟨[], 0⟩] := by decide
+
 /-! ## the leading barrier: pending operations are in the image
 
 `serialize` calls `barrier()` before anything else; C02 says that when it returns every
